@@ -254,6 +254,13 @@ void gen_c20(Plan &p, Rng &r, bool thorough) {
       outflag = "-P";
       outarg = "/dev/stdout";
     }
+    if (!outflag.empty() && outarg != "/dev/stdout" && r.chance(1, 10)) {
+      // a long output name (beyond any line-sized scratch array in the tool); -o appends ".bin" to it
+      std::string nm = "/sim/";
+      long L = r.chance(1, 2) ? r.range(88, 104) : r.range(105, 600);
+      while ((long)nm.size() < L) nm.push_back("output_name_"[nm.size() % 12]);
+      outarg = (outflag == "-o" || outflag == "--object") ? nm : nm + ".bin";
+    }
     // invalid argument cases
     bool invalid = r.chance(1, 14);
     if (invalid) {
@@ -307,6 +314,12 @@ void gen_c20(Plan &p, Rng &r, bool thorough) {
         prog.push_back(any_instr(r));
       }
       if (r.chance(1, 9) && !corpus_rejects().empty()) prog.insert(prog.begin() + (long)r.below(prog.size() + 1), ltext(r.pick(corpus_rejects())));
+    }
+    if (!run && r.chance(1, 25)) {
+      // no instruction at all: nothing, or comments / labels / directives only - zero bytes of code are a valid result
+      prog.clear();
+      if (!corpus_fillers().empty())
+        for (int q = (int)r.below(4); q > 0; q--) prog.push_back(ltext(r.pick(corpus_fillers())));
     }
     if (r.chance(1, 4)) {
       int k = 1 + (int)r.below(3);
